@@ -155,8 +155,8 @@ Definition norm_ref (ctes : list cmeta) (has_joins : bool) (ntabs : nat) (r : re
 (** ON of an expression join: first pass in the context of the left DataFrame's expression, then
     _handle_self_join, then a second pass in the context of the joined expression *)
 Definition norm_on_ref (ctes octes : list cmeta) (has_joins : bool) (ntabs : nat) (same_branch : bool)
-  (tcs' : list (nat * list string)) (r : ref) : rres :=
-  let j := ntabs in
+  (tcs' : list (nat * list string)) (other_tab : nat) (r : ref) : rres :=
+  let j := other_tab in
   let p1 := norm_ref ctes has_joins ntabs r in
   let p2 := match r with
             | RDf _ _ true n => if same_branch then RQ j n else p1
@@ -200,7 +200,7 @@ Definition first_tab_with (tcs : list (nat * list string)) (n : string) : option
 Definition key_eq (j : nat) (p : nat * string) : expr := EBin Eq (ECol (qn (fst p) (snd p))) (ECol (qn j (snd p))).
 
 Definition m_join (c : howcfg) (s : st) (R : frame) (rbase : nat) (octes : list cmeta) (on : onform) (how : string)
-  (same_branch : bool) : option st :=
+  (same_branch : bool) (stale : option nat) : option st :=
   let f := impl_flags c (match on with OnNone => true | _ => false end) how in
   match f_kind f with
   | None => None                                                   (* ParseError *)
@@ -219,17 +219,24 @@ Definition m_join (c : howcfg) (s : st) (R : frame) (rbase : nat) (octes : list 
       else match on with
            | OnNone => None
            | OnNames ks =>
-               match map_opt (fun k => option_map (fun i => (i, k)) (first_tab_with (indexed (s_tabs s)) k)) ks with
+               (* the tables searched for the left key: all but the one called other_df.latest_cte_name *)
+               let other_tab := match stale with Some i => i | None => j end in
+               let potential := match stale with
+                                | None => indexed (s_tabs s)
+                                | Some i => filter (fun t => negb (Nat.eqb (fst t) i)) (indexed tabs')
+                                end in
+               match map_opt (fun k => option_map (fun i => (i, k)) (first_tab_with potential k)) ks with
                | None => None                                        (* ValueError: column does not exist *)
                | Some pairs =>
                    let keyitems := map (fun p => if f_full f
-                                                 then IExpr (ECoalesce (ECol (qn (fst p) (snd p))) (ECol (qn j (snd p)))) (snd p)
+                                                 then IExpr (ECoalesce (ECol (qn (fst p) (snd p))) (ECol (qn other_tab (snd p)))) (snd p)
                                                  else IName (snd p)) pairs in
-                   finish (conj_left (map (key_eq j) pairs))
+                   finish (conj_left (map (key_eq other_tab) pairs))
                           (keyitems ++ map IName (filter (fun n => negb (smem n ks)) names))
                end
            | OnExprs es =>
-               match map_opt (resolve_uexpr (norm_on_ref (s_ctes s) octes has_joins j same_branch (indexed tabs'))) es with
+               match map_opt (resolve_uexpr (norm_on_ref (s_ctes s) octes has_joins j same_branch (indexed tabs')
+                                                          (match stale with Some i => i | None => j end))) es with
                | None => None
                | Some es' => finish (conj_left es') (map IName names)
                end
@@ -378,13 +385,16 @@ Definition sp_select (p : sp) (items : list (uexpr * string)) : option sp :=
 
 (** ** programs: a chain of joins, then optionally a where or a select *)
 Record jstep := mkStep {
-  j_right : frame; j_base : nat; j_octes : list cmeta; j_on : onform; j_how : string; j_same_branch : bool }.
+  j_right : frame; j_base : nat; j_octes : list cmeta; j_on : onform; j_how : string; j_same_branch : bool;
+  j_stale : option nat }.
+  (* j_stale = Some i: the right DataFrame's last CTE had, before _add_ctes_to_expression renamed it, the very name of table i
+     of the left side (same content, same hash).  join() keeps using that stale name (other_df.latest_cte_name). *)
 Inductive fin := FNone | FWhere (e : uexpr) | FSelect (items : list (uexpr * string)).
 
 Fixpoint m_chain (c : howcfg) (s : st) (steps : list jstep) : option st :=
   match steps with
   | [] => Some s
-  | x :: r => match m_join c s (j_right x) (j_base x) (j_octes x) (j_on x) (j_how x) (j_same_branch x) with
+  | x :: r => match m_join c s (j_right x) (j_base x) (j_octes x) (j_on x) (j_how x) (j_same_branch x) (j_stale x) with
               | Some s' => m_chain c s' r
               | None => None
               end
